@@ -243,7 +243,10 @@ func cutRun(run Output, mapping []glyphIndex, startRune, endRune int, trimStart 
 	run.Glyphs = run.Glyphs[glyphStart : glyphEnd+1]
 	run.Runes.Count = runeEnd - runeStart + 1
 	run.Runes.Offset = run.Runes.Offset + runeStart
-	if trimStart {
+	if trimStart && len(run.Glyphs) != 0 && run.Glyphs[0].startLetterSpacing != 0 {
+		// do not alter the glyphs shared with the input run (and with the other
+		// line candidates cut from it)
+		run.Glyphs = append([]Glyph(nil), run.Glyphs...)
 		run.trimStartLetterSpacing()
 	}
 	run.RecomputeAdvance()
